@@ -1080,6 +1080,10 @@ func (rr *NSEC3) parse(c *zlexer, o string) *ParseError {
 	}
 	rr.HashLength = 20 // Fix for NSEC3 (sha1 160 bits)
 	rr.NextDomain = l.token
+	if n := base32HexNoPadEncoding.DecodedLen(len(l.token)); n < 256 {
+		// The hash length goes with the hash that is written down.
+		rr.HashLength = uint8(n)
+	}
 
 	rr.TypeBitMap = make([]uint16, 0)
 	var (
